@@ -53,6 +53,42 @@ DEP_PAIRS = [("n", "n_q1_q2"), ("t1t2", "t1t2_q1_q2"), ("g_N", "g_N_q"), ("g_N",
              ("gamma_F_dot", "gamma_F_dot_u"), ("g_N_dot_u", "Wla_N_q"), ("gamma_F_u", "Wla_F_q")]
 
 
+def tangent_homogeneity(ctx):
+    """t1 = unit(t2_ref x n), t2 = unit(n x t1) do not change when the reference basis is scaled; hence their derivatives with respect to
+    q and to time are homogeneous of degree 0 in reference_contact_basis too (every `/ norm(...)` of the primal reappears in them).
+    Degree inference (K6) with the axioms: reference_contact_basis has degree 1; n, n_dot, n_q1_q2 degree 0."""
+    from fractions import Fraction as F
+    from ..degrees import Interp, is_ground, fmt
+    rep = ctx.rep
+    m = ctx.repo.module(S2S)
+    alg = ctx.repo.module("cardillo/math/algebra.py")
+    fns = {q: n for q, n in alg.defs().items() if isinstance(n, ast.FunctionDef) and "." not in q}
+    cls = m.defs().get("Sphere2Sphere")
+    if cls is None:
+        raise AnalysisError("Sphere2Sphere vanished")
+    names = ("t1t2", "t1t2_dot", "t1t2_q1_q2")
+    for st in cls.body:
+        if isinstance(st, ast.FunctionDef) and st.name in names:
+            fns[st.name] = st
+    for name in names:
+        if name not in fns:
+            continue
+        C = f"{S2S}:Sphere2Sphere.{name}"
+        it = Interp(fns, attr_degs={"self.reference_contact_basis": F(1), "self.n": F(0), "self.n_dot": F(0), "self.n_q1_q2": F(0)})
+        d = it.run(name, {"t": F(0), "q": F(0), "u": F(0)})
+        parts = d if isinstance(d, tuple) else (d,)
+        wrong = [x for x in parts if is_ground(x) and x != 0]
+        if it.violations or wrong:
+            node = it.violations[0].node if it.violations else fns[name].body[-1]
+            why = it.violations[0].msg if it.violations else f"degree {fmt(d)}"
+            rep.bad("C06.R12", C, node, f"under scaling of the reference contact basis `{name}` is not homogeneous of degree 0 ({why}): a normalisation of the primal tangents is "
+                    "missing (or doubled) in this derivative; it is exact only where t2_ref is perpendicular to the current normal", f"{S2S}:{getattr(node, 'lineno', 0)}")
+        elif all(is_ground(x) for x in parts):
+            rep.ok("C06.R12", C, f"degree {fmt(d)} in the reference contact basis")
+        else:
+            rep.ok("C06.R12", C, f"degree not inferred ({fmt(d)}) (no verdict)", verdict="unknown", trivial=True)
+
+
 def run(ctx):
     rep = ctx.rep
     rep.rule("C06.R1", "dispatch totality of contact methods per contact class", 28)
@@ -66,6 +102,8 @@ def run(ctx):
     rep.rule("C06.R11", "memoised contact kinematics (n, t1t2 and their derivatives) are keyed by every argument the result depends on, including time", 8)
     from . import c26
     c26.r1_keys(ctx, c26.find_sites(ctx), rule="C06.R11", want_cls=lambda ci: ci.rel.startswith("cardillo/contacts/"))
+    rep.rule("C06.R12", "Sphere2Sphere tangents and their q- and time-derivatives are homogeneous of degree 0 in the reference contact basis (K6)", 3)
+    tangent_homogeneity(ctx)
     rep.rule("C06.R10", "dependence monotonicity (K13): a contact derivative reads no datum its primal does not read", 20)
     from .. import depmono
     for ci_ in contact_classes(ctx):
@@ -225,6 +263,10 @@ MUTANTS += [
 MUTANTS += [
     dict(id="c06-r11-seed", canary=True, what="[seeded by sub-agent] Sphere2Sphere.n keyed without the time (stale normal for a partner with prescribed motion)", file=S2S,
          old="        lambda self: self.n_cache,\n        key=lambda self, t, q: hashkey(t, *q),", new="        lambda self: self.n_cache,\n        key=lambda self, t, q: hashkey(*q),", expect="C06.R11"),
+]
+MUTANTS += [
+    dict(id="c06-r12-seed", canary=True, what="[seeded by sub-agent] t1t2_dot without the normalisation by |t2_ref x n| ('the basis vectors are orthonormal')", file=S2S,
+         old="        t1_dot = (v_dot - t1 * (t1 @ v_dot)) / norm(cross3(t2_ref, n))", new="        t1_dot = v_dot - t1 * (t1 @ v_dot)", expect="C06.R12"),
 ]
 NEUTRAL = [
     dict(id="c06-n2", canary=True, what="lever arms hoisted into locals (the seeded fault's neutral twin)", file=S2S,
